@@ -158,9 +158,10 @@ class ConcatenatedLazyIndexer(LazyIndexer):
                 # itself (concatenated v1 data sets) cannot extract that
                 if chunks and chunk_start >= chunk_stop:
                     continue
+                chunk = self.indexers[ind][tuple([slice(chunk_start, chunk_stop, stride)] + keep_tail)]
                 # The final .reshape is needed to upgrade any scalar or singleton chunks to full dimension
-                chunks.append(self.indexers[ind][tuple([slice(chunk_start, chunk_stop, stride)] +
-                                                       keep_tail)].reshape(tuple([-1] + shape_tails)))
+                # (with the explicit chunk length, as -1 cannot be inferred when a tail dimension is empty)
+                chunks.append(chunk.reshape(tuple([len(chunk)] + shape_tails)))
             out_data = np.concatenate(chunks)
         else:
             # Anything else is advanced indexing via bool or integer sequences
@@ -171,8 +172,8 @@ class ConcatenatedLazyIndexer(LazyIndexer):
                 for ind in range(len(self.indexers)):
                     chunk_start = indexer_starts[ind]
                     chunk_stop = indexer_starts[ind + 1] if ind < len(indexer_starts) - 1 else len(self)
-                    chunks.append(self.indexers[ind][tuple([keep_head[chunk_start:chunk_stop]] +
-                                                           keep_tail)].reshape(tuple([-1] + shape_tails)))
+                    chunk = self.indexers[ind][tuple([keep_head[chunk_start:chunk_stop]] + keep_tail)]
+                    chunks.append(chunk.reshape(tuple([len(chunk)] + shape_tails)))
                 out_data = np.concatenate(chunks)
             else:
                 # Negative indices count from the end of the concatenated data, as for a scalar index
